@@ -4,6 +4,7 @@ package tf
 
 import (
 	"fmt"
+	"os"
 	"go/ast"
 	"go/token"
 	"go/types"
@@ -534,5 +535,737 @@ func runTurnCred(c *Ctx) {
 	}
 	if nconcat == 0 {
 		c.Check(njoin > 0, "turn-cred/hostport", token.NoPos, fmt.Sprintf("no \":\" concatenation in server/ICE code; %d net.JoinHostPort calls", njoin), "no net.JoinHostPort call found in cmd/thruserv or internal/ice (anchor lost)")
+	}
+}
+
+func init() {
+	Register(&Rule{
+		Name:  "R-RESEND-GATE",
+		Props: []string{"C06", "C17", "C01"},
+		Min:   6,
+		Doc: "a chunk re-sent after a failed verification is not among the chunks the receiver counts as missing, so three things keep it from racing with finalisation (F20): " +
+			"(sender) nextChunkToSend hands out a chunk only where verifyPending is false - the re-send, when there is one, is the first thing sent of the file; " +
+			"(sender) every chunk frame written is counted (noteFrameSent on the success path of writeChunkFrame) and FileEnd carries that count; " +
+			"(receiver) the file-complete verdict of recvFileStateMux requires remaining == 0 and, unless the file was started fresh (!needEnd), endReceived and framesRecv >= endFrames; " +
+			"needEnd is set wherever a loaded bitmap reduced remaining",
+		Run: runResendGate,
+	})
+}
+
+func runResendGate(c *Ctx) {
+	p := c.P
+	fieldNamed := func(info *types.Info, e ast.Expr, name string) bool {
+		sel, ok := ast.Unparen(e).(*ast.SelectorExpr)
+		if !ok {
+			return false
+		}
+		v, _ := info.Uses[sel.Sel].(*types.Var)
+		return v != nil && v.IsField() && v.Name() == name
+	}
+	// (1) sender: nothing handed out while verifyPending
+	if f := p.Func("transfer.(*sendFileState).nextChunkToSend"); f != nil {
+		info := f.Info()
+		spec := &PassSpec{Vias: []Via{{Cond: func(g *FuncInfo, e ast.Expr) (string, bool, bool) {
+			if fieldNamed(g.Info(), e, "verifyPending") {
+				return "verdict-in", false, true
+			}
+			return "", false, false
+		}}}}
+		n := 0
+		for _, b := range f.CFG().Blocks {
+			ret, ok := IsReturnExit(b)
+			if !ok || len(ret.Results) != 3 {
+				continue
+			}
+			if tv := info.Types[ret.Results[2]]; tv.Value == nil || tv.Value.String() != "true" {
+				continue
+			}
+			n++
+			c.Check(spec.Passed(f, NodeRef{b, len(b.Nodes) - 1}, "verdict-in"), fmt.Sprintf("resend-gate/hand-out#%d/verdict-in", n), ret.Pos(), "a chunk is handed out only once the verification verdict is in",
+				"nextChunkToSend can hand out a chunk while the verification of the receiver's last complete chunk is still pending: the remaining chunks can complete the file at the receiver before the re-send of a damaged chunk goes out, the re-send is then discarded as a late duplicate and both sides report success")
+		}
+		if n == 0 {
+			c.Unknown("resend-gate/hand-out", f.Pos(), "nextChunkToSend has no `return ..., true`")
+		}
+	} else {
+		c.MissingAnchor("transfer.(*sendFileState).nextChunkToSend")
+	}
+	// (2) sender: frames counted, count reported
+	wcf := p.Func("transfer.writeChunkFrame")
+	note := p.Func("transfer.(*sendFileState).noteFrameSent")
+	if wcf == nil || note == nil {
+		c.Bad("resend-gate/frame-count", token.NoPos, "the sender does not count the chunk frames it writes (no writeChunkFrame / noteFrameSent): a receiver that resumed a file cannot know whether a re-send is still coming")
+	} else {
+		nw := 0
+		for _, f := range p.FuncsIn("internal/transfer") {
+			info := f.Info()
+			cfg := f.CFG()
+			cfg.Calls(func(r NodeRef, call *ast.CallExpr) {
+				if p.CalleeInfo(info, call) != wcf {
+					return
+				}
+				nw++
+				// success edge of the error test of this call
+				var errObj types.Object
+				switch st := r.Node().(type) {
+				case *ast.AssignStmt:
+					if len(st.Lhs) == 1 {
+						errObj = ObjOf(info, st.Lhs[0])
+					}
+				}
+				var succ NodeRef
+				for _, b := range cfg.Blocks {
+					cond, tb, fb, ok := CondEdges(b)
+					if !ok || errObj == nil {
+						continue
+					}
+					if o, nilOnTrue, okn := NilTest(info, cond); okn && o == errObj && cfg.Dominates(r, NodeRef{b, len(b.Nodes) - 1}) {
+						if nilOnTrue {
+							succ = NodeRef{tb, -1}
+						} else {
+							succ = NodeRef{fb, -1}
+						}
+						break
+					}
+				}
+				if !succ.Valid() {
+					c.Unknown(fmt.Sprintf("resend-gate/frame-counted/%s#%d", f.Name, nw), call.Pos(), "cannot find the error test of writeChunkFrame")
+					return
+				}
+				counted := allPathsHit(cfg, succ, func(n ast.Node) bool {
+					hit := false
+					InspectNoLits(n, func(m ast.Node) bool {
+						if c2, ok := m.(*ast.CallExpr); ok && p.CalleeInfo(info, c2) == note {
+							hit = true
+						}
+						return true
+					})
+					return hit
+				}, func(n ast.Node) bool {
+					// must come before the chunk is reported done (which can emit FileEnd)
+					bad := false
+					InspectNoLits(n, func(m ast.Node) bool {
+						if c2, ok := m.(*ast.CallExpr); ok {
+							if g := p.CalleeInfo(info, c2); g != nil && g.Name == "transfer.(*sendFileState).markChunkDone" {
+								bad = true
+							}
+						}
+						return true
+					})
+					return bad
+				})
+				c.Check(counted, fmt.Sprintf("resend-gate/frame-counted/%s#%d", f.Name, nw), call.Pos(), "every written frame is counted before the chunk is reported done",
+					"a chunk frame can be written without being counted before markChunkDone: FileEnd then announces fewer frames than were sent and a receiver that resumed the file finalises before the last of them (possibly the repair of a damaged chunk) arrived")
+			})
+		}
+		if nw == 0 {
+			c.Unknown("resend-gate/frame-counted", wcf.Pos(), "no call of writeChunkFrame found")
+		}
+		// FileEnd{CRC32: state.frameCount()} on the mux sender
+		reported := false
+		if send := p.Func("transfer.SendManifestMultiStream"); send != nil {
+			var visit func(g *FuncInfo)
+			visit = func(g *FuncInfo) {
+				ast.Inspect(g.Body, func(n ast.Node) bool {
+					cl, ok := n.(*ast.CompositeLit)
+					if !ok {
+						return true
+					}
+					if t := g.Info().TypeOf(cl); t == nil || !strings.HasSuffix(t.String(), "transfer.FileEnd") {
+						return true
+					}
+					for _, el := range cl.Elts {
+						if kv, ok := el.(*ast.KeyValueExpr); ok && types.ExprString(kv.Key) == "CRC32" {
+							for _, d := range resolveExprs(g, kv.Value, 2) {
+								if call, ok := ast.Unparen(d).(*ast.CallExpr); ok {
+									if fi := p.CalleeInfo(g.Info(), call); fi != nil && fi.Name == "transfer.(*sendFileState).frameCount" {
+										reported = true
+									}
+								}
+							}
+						}
+					}
+					return true
+				})
+				for _, k := range g.Kids {
+					visit(k)
+				}
+			}
+			visit(send)
+		}
+		c.Check(reported, "resend-gate/frame-count-reported", wcf.Pos(), "FileEnd carries the sender's frame count", "the multiplexed sender's FileEnd does not carry the number of frames sent for the file: a receiver that resumed the file cannot wait for a re-send")
+	}
+	// (3) receiver: the completeness verdict
+	cl := p.Func("transfer.(*recvFileStateMux).completeLocked")
+	if cl == nil {
+		c.Bad("resend-gate/verdict", token.NoPos, "recvFileStateMux has no single completeness verdict (completeLocked): a resumed file is finalised as soon as no chunk is missing, before a re-sent chunk arrived")
+		return
+	}
+	{
+		info := cl.Info()
+		spec := &PassSpec{Vias: []Via{{Cond: func(g *FuncInfo, e ast.Expr) (string, bool, bool) {
+			if be, ok := ast.Unparen(e).(*ast.BinaryExpr); ok && fieldNamed(g.Info(), be.X, "remaining") {
+				if z, isC := constInt(g.Info(), be.Y); isC && z == 0 {
+					switch be.Op {
+					case token.NEQ, token.GTR:
+						return "none-missing", false, true
+					case token.EQL:
+						return "none-missing", true, true
+					}
+				}
+			}
+			if fieldNamed(g.Info(), e, "needEnd") {
+				return "fresh-file", false, true
+			}
+			return "", false, false
+		}}}}
+		n := 0
+		for _, b := range cl.CFG().Blocks {
+			ret, ok := IsReturnExit(b)
+			if !ok || len(ret.Results) != 1 {
+				continue
+			}
+			if tv := info.Types[ret.Results[0]]; tv.Value != nil && tv.Value.String() == "false" {
+				continue
+			}
+			n++
+			ref := NodeRef{b, len(b.Nodes) - 1}
+			key := fmt.Sprintf("resend-gate/verdict/return#%d", n)
+			none := spec.Passed(cl, ref, "none-missing")
+			fresh := spec.Passed(cl, ref, "fresh-file")
+			endIn, framesIn := false, false
+			for _, a := range Implied(ret.Results[0], true) {
+				if a.Val && fieldNamed(info, a.E, "endReceived") {
+					endIn = true
+				}
+				if be, ok := a.E.(*ast.BinaryExpr); ok && a.Val && be.Op == token.GEQ && fieldNamed(info, be.X, "framesRecv") && fieldNamed(info, be.Y, "endFrames") {
+					framesIn = true
+				}
+				if be, ok := a.E.(*ast.BinaryExpr); ok && a.Val && be.Op == token.EQL && fieldNamed(info, be.X, "remaining") {
+					if z, isC := constInt(info, be.Y); isC && z == 0 {
+						none = true
+					}
+				}
+			}
+			c.Check(none && (fresh || (endIn && framesIn)), key, ret.Pos(), "complete only with nothing missing and, for a resumed file, FileEnd in and all announced frames processed",
+				"the receiver can declare a file complete without (remaining == 0) && (!needEnd || (endReceived && framesRecv >= endFrames)): a resumed file is finalised while a re-sent (repair) chunk may still be on its way")
+		}
+		if n == 0 {
+			c.Unknown("resend-gate/verdict", cl.Pos(), "completeLocked never returns a non-false value")
+		}
+	}
+	// the done results of the state methods are that verdict
+	for _, name := range []string{"transfer.(*recvFileStateMux).markChunkComplete", "transfer.(*recvFileStateMux).markEndReceived"} {
+		f := p.Func(name)
+		if f == nil {
+			c.MissingAnchor(name)
+			continue
+		}
+		info := f.Info()
+		okAll, n := true, 0
+		for _, b := range f.CFG().Blocks {
+			ret, ok := IsReturnExit(b)
+			if !ok || len(ret.Results) == 0 {
+				continue
+			}
+			n++
+			res := ret.Results[0]
+			if tv := info.Types[res]; tv.Value != nil && tv.Value.String() == "false" {
+				continue
+			}
+			isVerdict := false
+			for _, d := range resolveExprs(f, res, 2) {
+				if call, ok := ast.Unparen(d).(*ast.CallExpr); ok && p.CalleeInfo(info, call) == cl {
+					isVerdict = true
+				}
+			}
+			if !isVerdict {
+				okAll = false
+			}
+		}
+		c.Check(okAll && n > 0, "resend-gate/verdict-used/"+name, f.Pos(), "the done result is completeLocked()", name+" reports a file complete by something other than completeLocked(): the resumed-file conditions (FileEnd in, all announced frames processed) are bypassed")
+	}
+	// frames are counted on the receiver for every processed chunk, and needEnd is set where the bitmap reduced remaining
+	if mc := p.Func("transfer.(*recvFileStateMux).markChunkComplete"); mc != nil {
+		info := mc.Info()
+		cfg := mc.CFG()
+		inc := func(n ast.Node) bool {
+			if s, ok := n.(*ast.IncDecStmt); ok && s.Tok == token.INC && fieldNamed(info, s.X, "framesRecv") {
+				return true
+			}
+			return false
+		}
+		c.Check(allPathsHit(cfg, NodeRef{cfg.Entry(), -1}, inc, func(ast.Node) bool { return false }), "resend-gate/frames-received-counted", mc.Pos(), "every processed chunk increments framesRecv",
+			"markChunkComplete has a path that does not count the processed frame: the receiver waits for announced frames that it already processed (hang) or, if counted twice, finalises early")
+	}
+	nNeed := 0
+	for _, f := range p.FuncsIn("internal/transfer") {
+		info := f.Info()
+		f.CFG().EachNode(func(r NodeRef) {
+			as, ok := r.Node().(*ast.AssignStmt)
+			if !ok || len(as.Lhs) != 1 || !fieldNamed(info, as.Lhs[0], "remaining") {
+				return
+			}
+			if be, ok := StripConv(info, as.Rhs[0]).(*ast.BinaryExpr); !ok || be.Op != token.SUB {
+				return
+			}
+			nNeed++
+			// needEnd assigned in the same block region after/before: look for an assignment to needEnd in the same function that this node reaches or that reaches it
+			set := false
+			f.CFG().EachNode(func(r2 NodeRef) {
+				if a2, ok := r2.Node().(*ast.AssignStmt); ok && len(a2.Lhs) == 1 && fieldNamed(info, a2.Lhs[0], "needEnd") && (f.CFG().Reaches(r, r2) || f.CFG().Reaches(r2, r)) {
+					if types.ExprString(a2.Rhs[0]) != "false" {
+						set = true
+					}
+				}
+			})
+			c.Check(set, fmt.Sprintf("resend-gate/need-end/%s#%d", f.Name, nNeed), as.Pos(), "needEnd is set where the loaded bitmap reduced remaining",
+				"remaining is reduced by the recorded chunks without marking the file as resumed (needEnd): it is finalised on its last missing chunk although a re-send may follow")
+		})
+	}
+}
+
+func init() {
+	Register(&Rule{
+		Name:  "R-BOUNDED-STOP",
+		Props: []string{"C03", "C02", "C15"},
+		Min:   6,
+		Doc: "places where an endpoint could wait for something the protocol does not promise (F21-F24): " +
+			"(wake-up) fileWaitRegistry.wait consults the set of already signalled ids in the critical section in which it registers its waiter, and signal records the id in the critical section in which it removes the waiters - a look-up followed by wait cannot miss a signal that came in between; " +
+			"(dispatcher) nothing reachable from the receiver's control-record handler calls fileReady.wait: the handler runs in the loop that would have to handle the awaited FileBegin; " +
+			"(end) once the End record is taken off the control channel the receiver returns on every path (nothing is read from the stream after End), and a file is counted complete before its FileDone is queued, so an honest End finds the count complete; " +
+			"(acks) the sender's acknowledgement reader returns without reporting an error only for context.Canceled",
+		Run: runBoundedStop,
+	})
+}
+
+func runBoundedStop(c *Ctx) {
+	p := c.P
+	ls := NewLockSpec()
+	// ---- (wake-up)
+	wait := p.Func("transfer.(*fileWaitRegistry).wait")
+	sig := p.Func("transfer.(*fileWaitRegistry).signal")
+	if wait == nil || sig == nil {
+		c.MissingAnchor("transfer.(*fileWaitRegistry).wait / signal")
+	} else {
+		info := wait.Info()
+		cfg := wait.CFG()
+		fieldSel := func(i *types.Info, e ast.Expr, name string) bool {
+			e = ast.Unparen(e)
+			if ix, ok := e.(*ast.IndexExpr); ok {
+				e = ast.Unparen(ix.X)
+			}
+			sel, ok := e.(*ast.SelectorExpr)
+			if !ok {
+				return false
+			}
+			v, _ := i.Uses[sel.Sel].(*types.Var)
+			return v != nil && v.IsField() && v.Name() == name
+		}
+		// the append to waiters
+		var reg NodeRef
+		cfg.EachNode(func(r NodeRef) {
+			if as, ok := r.Node().(*ast.AssignStmt); ok && len(as.Lhs) == 1 && fieldSel(info, as.Lhs[0], "waiters") {
+				reg = r
+			}
+		})
+		if !reg.Valid() {
+			c.Unknown("wake-up/wait", wait.Pos(), "cannot find the registration of the waiter")
+		} else {
+			// a condition on a look-up in a set of signalled ids, false edge, in the same critical section
+			consulted := &PassSpec{SkipDefer: true}
+			sigObjs := map[types.Object]bool{}
+			ast.Inspect(wait.Body, func(n ast.Node) bool {
+				if as, ok := n.(*ast.AssignStmt); ok && len(as.Rhs) == 1 && len(as.Lhs) == 2 {
+					if ix, ok := ast.Unparen(as.Rhs[0]).(*ast.IndexExpr); ok {
+						if sel, ok := ast.Unparen(ix.X).(*ast.SelectorExpr); ok {
+							if v, _ := info.Uses[sel.Sel].(*types.Var); v != nil && v.IsField() && v.Name() != "waiters" {
+								if _, isMap := v.Type().Underlying().(*types.Map); isMap {
+									sigObjs[ObjOf(info, as.Lhs[1])] = true
+								}
+							}
+						}
+					}
+				}
+				return true
+			})
+			consulted.Vias = []Via{{Cond: func(g *FuncInfo, e ast.Expr) (string, bool, bool) {
+				if o := ObjOf(g.Info(), e); o != nil && sigObjs[o] {
+					return "not-yet-signalled", false, true
+				}
+				return "", false, false
+			}}}
+			consulted.KillAll = func(g *FuncInfo, n ast.Node) bool {
+				kill := false
+				InspectNoLits(n, func(m ast.Node) bool {
+					if call, ok := m.(*ast.CallExpr); ok {
+						if _, op, ok := mutexOp(g.Info(), call); ok && (op == "Unlock" || op == "Lock") {
+							kill = true // what was learnt in another critical section does not count
+						}
+					}
+					return true
+				})
+				return kill
+			}
+			held := len(HeldAny(ls, wait, reg)) > 0
+			c.Check(held && consulted.Passed(wait, reg, "not-yet-signalled"), "wake-up/wait-consults-signalled", reg.Node().Pos(), "the waiter is registered only after the signalled set said 'not yet', in one critical section",
+				"fileWaitRegistry.wait registers its waiter without consulting, in the same critical section, the ids that were already signalled: callers look the file up and then wait; a FileBegin handled between the two steps signals nobody and the reader waits forever (about 3 of 100 transfers of 40 small files over 8 streams between healthy peers)")
+		}
+		si := sig.Info()
+		recorded := false
+		sig.CFG().EachNode(func(r NodeRef) {
+			if as, ok := r.Node().(*ast.AssignStmt); ok && len(as.Lhs) == 1 {
+				if ix, ok := ast.Unparen(as.Lhs[0]).(*ast.IndexExpr); ok {
+					if sel, ok := ast.Unparen(ix.X).(*ast.SelectorExpr); ok {
+						if v, _ := si.Uses[sel.Sel].(*types.Var); v != nil && v.IsField() && v.Name() != "waiters" && len(HeldAny(ls, sig, r)) > 0 {
+							recorded = true
+						}
+					}
+				}
+			}
+		})
+		c.Check(recorded, "wake-up/signal-records", sig.Pos(), "signal records the id under the lock", "fileWaitRegistry.signal does not record the signalled id under its lock: a later wait for that id blocks forever")
+	}
+	// ---- (dispatcher)
+	recv := p.Func("transfer.RecvManifestMultiStream")
+	if recv == nil {
+		c.MissingAnchor("transfer.RecvManifestMultiStream")
+		return
+	}
+	var handle *FuncInfo
+	for _, k := range recv.Kids {
+		if k.Var != nil && k.Var.Name() == "handleControl" {
+			handle = k
+		}
+	}
+	if handle == nil {
+		c.MissingAnchor("transfer.RecvManifestMultiStream$handleControl")
+	} else {
+		seen := map[*FuncInfo]bool{}
+		var blocked []string
+		var walk func(g *FuncInfo, path string)
+		walk = func(g *FuncInfo, path string) {
+			if seen[g] {
+				return
+			}
+			seen[g] = true
+			gi := g.Info()
+			InspectNoLits(g.Body, func(n ast.Node) bool {
+				call, ok := n.(*ast.CallExpr)
+				if !ok {
+					return true
+				}
+				if fi := p.CalleeInfo(gi, call); fi != nil && fi.Name == "transfer.(*fileWaitRegistry).wait" {
+					blocked = append(blocked, path+" -> "+g.Name+" at "+p.Pos(call.Pos()))
+				}
+				if id, ok := ast.Unparen(call.Fun).(*ast.Ident); ok {
+					if v, ok := ObjOf(gi, id).(*types.Var); ok {
+						if h := p.ClosureOfVar(v); h != nil {
+							walk(h, path+" -> "+g.Name)
+						}
+					}
+				}
+				return true
+			})
+		}
+		walk(handle, "control loop")
+		c.Stat("dispatcher_closures", len(seen))
+		c.Check(len(blocked) == 0, "dispatcher/never-waits-for-a-file", handle.Pos(), fmt.Sprintf("%d handler closures reachable from handleControl, none waits for a file to begin", len(seen)),
+			"a control-record handler waits for a file to begin ("+strings.Join(blocked, "; ")+"): it runs inside the loop that handles FileBegin, so the awaited record can never be handled and the receiver stays blocked after the peer went away")
+	}
+	// ---- (end)
+	{
+		info := recv.Info()
+		cfg := recv.CFG()
+		endConst, _ := p.LookupObj("internal/transfer", "controlTypeEnd").(*types.Const)
+		n := 0
+		for _, b := range cfg.Blocks {
+			cond, tb, _, ok := CondEdges(b)
+			if !ok || endConst == nil {
+				continue
+			}
+			be, isB := ast.Unparen(cond).(*ast.BinaryExpr)
+			if !isB || be.Op != token.EQL || ObjOf(info, be.Y) != endConst {
+				continue
+			}
+			// only the main loop (after the data-stream announcement): the event comes off controlCh in a select
+			if _, isSel := ast.Unparen(be.X).(*ast.SelectorExpr); !isSel {
+				continue
+			}
+			n++
+			// every path from the true edge reaches a return without leaving through a back edge
+			allReturn := true
+			seenB := map[int32]bool{}
+			stack := []NodeRef{{tb, -1}}
+			for len(stack) > 0 {
+				cur := stack[len(stack)-1]
+				stack = stack[:len(stack)-1]
+				if seenB[cur.B.Index] {
+					continue
+				}
+				seenB[cur.B.Index] = true
+				if _, isRet := IsReturnExit(cur.B); isRet {
+					continue
+				}
+				if len(cur.B.Succs) == 0 {
+					continue
+				}
+				for _, s := range cur.B.Succs {
+					if !s.Live {
+						continue
+					}
+					if cfg.BlockDominates(s, b) && s != tb { // jumps back to (or before) the test: the loop goes on waiting
+						allReturn = false
+					}
+					stack = append(stack, NodeRef{s, -1})
+				}
+			}
+			c.Check(allReturn, fmt.Sprintf("end/returns#%d", n), cond.Pos(), "after End the receiver returns on every path",
+				"after taking the End record off the control channel the receiver can go on waiting: the control stream is not read after End, so a peer that sent End early and went away can never wake it - it blocks although all its input has ended")
+		}
+		if n == 0 {
+			c.Unknown("end/returns", recv.Pos(), "cannot find the test `ev.typ == controlTypeEnd` in the receiver's main loop")
+		}
+		// counted before FileDone is queued
+		var fin *FuncInfo
+		for _, k := range recv.Kids {
+			if k.Var != nil && k.Var.Name() == "finalizeFile" {
+				fin = k
+			}
+		}
+		if fin == nil {
+			c.MissingAnchor("transfer.RecvManifestMultiStream$finalizeFile")
+		} else {
+			fi := fin.Info()
+			fcfg := fin.CFG()
+			var inc, send NodeRef
+			fcfg.EachNode(func(r NodeRef) {
+				switch s := r.Node().(type) {
+				case *ast.IncDecStmt:
+					if id, ok := ast.Unparen(s.X).(*ast.Ident); ok && id.Name == "completedCount" && s.Tok == token.INC {
+						inc = r
+					}
+				case *ast.SendStmt:
+					if cl, ok := ast.Unparen(s.Value).(*ast.CompositeLit); ok {
+						for _, el := range cl.Elts {
+							if kv, ok := el.(*ast.KeyValueExpr); ok && types.ExprString(kv.Key) == "done" {
+								send = r
+							}
+						}
+					}
+				}
+			})
+			_ = fi
+			if !inc.Valid() || !send.Valid() {
+				c.Unknown("end/counted-before-ack", fin.Pos(), "cannot find completedCount++ / the FileDone enqueue in finalizeFile")
+			} else {
+				c.Check(fcfg.Reaches(inc, send) && !fcfg.Reaches(send, inc), "end/counted-before-ack", inc.Node().Pos(), "a file is counted before its FileDone is queued",
+					"finalizeFile queues the FileDone before it counts the file: the sender can see every acknowledgement and send End while the count here is still short, and the receiver then reports an honest End as premature")
+			}
+		}
+	}
+	// ---- (acks)
+	if send := p.Func("transfer.SendManifestMultiStream"); send != nil {
+		n := 0
+		for _, k := range send.Kids {
+			ki := k.Info()
+			reads := false
+			InspectNoLits(k.Body, func(m ast.Node) bool {
+				if call, ok := m.(*ast.CallExpr); ok {
+					if fi := p.CalleeInfo(ki, call); fi != nil && fi.Name == "transfer.readControlMessage" {
+						reads = true
+					}
+				}
+				return true
+			})
+			if !reads {
+				continue
+			}
+			// the error variable of the read
+			var readErr types.Object
+			var readNode ast.Node
+			InspectNoLits(k.Body, func(m ast.Node) bool {
+				if as, ok := m.(*ast.AssignStmt); ok && len(as.Rhs) == 1 && len(as.Lhs) >= 2 {
+					if call, ok := ast.Unparen(as.Rhs[0]).(*ast.CallExpr); ok {
+						if fi := p.CalleeInfo(ki, call); fi != nil && fi.Name == "transfer.readControlMessage" {
+							readErr = ObjOf(ki, as.Lhs[len(as.Lhs)-1])
+							readNode = as
+						}
+					}
+				}
+				return true
+			})
+			spec := &PassSpec{NoInheritAsync: true, Vias: []Via{
+				{Cond: func(g *FuncInfo, e ast.Expr) (string, bool, bool) {
+					if call, ok := ast.Unparen(e).(*ast.CallExpr); ok && calleeIs(g.Info(), call, "errors", "Is") && len(call.Args) == 2 {
+						if strings.HasSuffix(types.ExprString(call.Args[1]), "context.Canceled") && ObjOf(g.Info(), call.Args[0]) == readErr {
+							return "reported-or-cancelled", true, true
+						}
+					}
+					if o, nilOnTrue, ok := NilTest(g.Info(), e); ok && o == readErr && readErr != nil {
+						return "reported-or-cancelled", nilOnTrue, true // no error: not an error exit
+					}
+					return "", false, false
+				}},
+			}}
+			spec.KillAll = func(g *FuncInfo, n ast.Node) bool { return n == readNode }
+			kcfg := k.CFG()
+			// a send on an error channel is a communication of a select clause: facts are generated on clause entry
+			spec.Vias = append(spec.Vias, Via{Stmt: func(g *FuncInfo, nd ast.Node) (string, bool) {
+				if ss, ok := nd.(*ast.SendStmt); ok {
+					if t := g.Info().TypeOf(ss.Value); t != nil && isErrorType(t) {
+						return "reported-or-cancelled", true
+					}
+				}
+				return "", false
+			}})
+			for _, b := range kcfg.Blocks {
+				ret, ok := IsReturnExit(b)
+				if !ok {
+					continue
+				}
+				ref := NodeRef{b, len(b.Nodes) - 1}
+				// only returns on the error path of the read
+				n++
+				_ = ret
+				okRet := spec.Passed(k, ref, "reported-or-cancelled")
+				if os.Getenv("TFDEBUG") == "acks" {
+					fmt.Fprintf(os.Stderr, "ACKS return at %s passed=%v facts=%v\n", p.Pos(ret.Pos()), okRet, spec.PassedList(k, ref))
+				}
+				if !okRet {
+					// `select { case ch <- err: default: }` : the default arm also counts as an attempt to report (channel of capacity 1 already holds an error)
+					for _, pb := range kcfg.Preds(b) {
+						_ = pb
+					}
+					okRet = returnFollowsReportSelect(k, ret)
+				}
+				c.Check(okRet, fmt.Sprintf("acks/%s/return#%d", k.Name, n), b.Nodes[len(b.Nodes)-1].Pos(), "the acknowledgement reader ends silently only for a cancelled context",
+					"the sender's acknowledgement reader can return after a read error without reporting it (only context.Canceled may be silent): when the receiver ends its side of the control stream before acknowledging every file, the sender keeps waiting for FileDone records that can no longer arrive")
+			}
+		}
+		if n == 0 {
+			c.Unknown("acks/reader", send.Pos(), "cannot find the acknowledgement reader (a goroutine of SendManifestMultiStream calling readControlMessage)")
+		}
+	}
+}
+
+// returnFollowsReportSelect: ret is the statement right after a `select` whose non-default clause sends an error, or it is the
+// body of a select clause that received from a context's Done channel.
+func returnFollowsReportSelect(f *FuncInfo, ret *ast.ReturnStmt) bool {
+	info := f.Info()
+	okAll := false
+	ast.Inspect(f.Body, func(n ast.Node) bool {
+		switch v := n.(type) {
+		case *ast.BlockStmt:
+			for i, st := range v.List {
+				sel, ok := st.(*ast.SelectStmt)
+				if !ok || i+1 >= len(v.List) || v.List[i+1] != ast.Stmt(ret) {
+					continue
+				}
+				for _, cl := range sel.Body.List {
+					if cc := cl.(*ast.CommClause); cc.Comm != nil {
+						if ss, ok := cc.Comm.(*ast.SendStmt); ok {
+							if t := info.TypeOf(ss.Value); t != nil && isErrorType(t) {
+								okAll = true
+							}
+						}
+					}
+				}
+			}
+		case *ast.CommClause:
+			if v.Comm == nil || len(v.Body) == 0 || v.Body[0] != ast.Stmt(ret) {
+				return true
+			}
+			if es, ok := v.Comm.(*ast.ExprStmt); ok {
+				if u, ok := ast.Unparen(es.X).(*ast.UnaryExpr); ok && u.Op == token.ARROW {
+					if call, ok := ast.Unparen(u.X).(*ast.CallExpr); ok {
+						if sel, ok := ast.Unparen(call.Fun).(*ast.SelectorExpr); ok && sel.Sel.Name == "Done" {
+							okAll = true
+						}
+					}
+				}
+			}
+		}
+		return true
+	})
+	return okAll
+}
+
+func init() {
+	Register(&Rule{
+		Name:  "R-WG-ORDER",
+		Props: []string{"C03", "C09"},
+		Min:   1,
+		Doc: "sync.WaitGroup discipline: a goroutine that calls Wait on a group is started only at a point from which no Add on that group is reachable any more - " +
+			"a Wait that runs before the first Add finds an empty group, returns at once and its 'everything finished' signal fires while the work has not started (ProbeAndDial reported 'all probes failed' against a healthy listener: F25)",
+		Run: runWgOrder,
+	})
+}
+
+func runWgOrder(c *Ctx) {
+	p := c.P
+	n := 0
+	for _, f := range p.Funcs() {
+		if f.Body == nil || strings.HasSuffix(p.Pos(f.Pos()), "_test.go") {
+			continue
+		}
+		info := f.Info()
+		// wait groups declared in f
+		wgs := map[types.Object]bool{}
+		InspectNoLits(f.Body, func(m ast.Node) bool {
+			if id, ok := m.(*ast.Ident); ok {
+				if o, ok := info.Defs[id].(*types.Var); ok && o != nil && strings.HasSuffix(o.Type().String(), "sync.WaitGroup") {
+					wgs[o] = true
+				}
+			}
+			return true
+		})
+		if len(wgs) == 0 {
+			continue
+		}
+		cfg := f.CFG()
+		callsOn := func(node ast.Node, meth string, intoLits bool) map[types.Object]ast.Node {
+			out := map[types.Object]ast.Node{}
+			visit := func(m ast.Node) bool {
+				if call, ok := m.(*ast.CallExpr); ok {
+					if sel, ok := ast.Unparen(call.Fun).(*ast.SelectorExpr); ok && sel.Sel.Name == meth {
+						if o := ObjOf(info, sel.X); o != nil && wgs[o] {
+							out[o] = call
+						}
+					}
+				}
+				return true
+			}
+			if intoLits {
+				ast.Inspect(node, visit)
+			} else {
+				InspectNoLits(node, visit)
+			}
+			return out
+		}
+		cfg.EachNode(func(r NodeRef) {
+			gs, ok := r.Node().(*ast.GoStmt)
+			if !ok {
+				return
+			}
+			lit, ok := ast.Unparen(gs.Call.Fun).(*ast.FuncLit)
+			if !ok {
+				return
+			}
+			for wg := range callsOn(lit.Body, "Wait", true) {
+				n++
+				late := ""
+				cfg.EachNode(func(r2 NodeRef) {
+					if r2 == r || !cfg.Reaches(r, r2) {
+						return
+					}
+					if a, ok := callsOn(r2.Node(), "Add", false)[wg]; ok {
+						late = p.Pos(a.Pos())
+					}
+				})
+				c.Check(late == "", fmt.Sprintf("wg-order/%s/%s#%d", f.Name, wg.Name(), n), gs.Pos(), "the waiting goroutine is started after the last Add on "+wg.Name(),
+					"a goroutine waiting on "+wg.Name()+" is started while "+wg.Name()+".Add can still follow (at "+late+"): if it runs first, Wait finds an empty group and returns at once, and whatever it signals ('all done') fires before the work started")
+			}
+		})
 	}
 }
